@@ -121,7 +121,8 @@ def rule_sizes(ck, facts):
         if other is None:
             ck.bad(R, "size|%s" % v, "word_size has no analysable arm for Type::%s" % v, ws[0].where())
             continue
-        mine = {s for s in sigs}
+        # a template that just calls word_size on the same type is the reference itself
+        mine = {s for s in sigs if not (s[0] == "calls" and tuple(s[1]) == ("word_size",))}
         if mine <= other or {s[:2] for s in mine} <= {s[:2] for s in other}:
             ck.ok(R, "size|%s" % v, {"variant": v, "cell_size": sorted(map(str, mine)), "word_size": sorted(map(str, other))})
         else:
